@@ -184,10 +184,10 @@ fn c09_check(ctx: &Ctx) -> i32 {
 
 fn c10_check(ctx: &Ctx) -> i32 {
     let budget = Duration::from_secs(ctx.tier.pick(30, 300));
-    let agg = shard_runs(ctx, "main", ctx.tier.pick(60_000, 3_000_000), budget, Duration::from_secs(60), Arc::new(c10::run_one));
+    let agg = shard_runs(ctx, "main", ctx.tier.pick(60_000, 3_000_000), budget, Duration::from_secs(60), Arc::new(|run, seed| if run % 6 == 5 { c10::run_exhaustion(run, seed) } else { c10::run_one(run, seed) }));
     let rep = Report {
         level: "exploration",
-        rule: "one case = one seeded run: 2-8 tagged port-open requests (client connect_ext or ports sent over a port, wait flag, optionally cancelled at poll n) against a listener that inspects and accepts / accepts later / rejects(false|true) / drops requests, uses Listener::accept directly (optionally cancelled at poll n) or is dropped; max_ports 2..8, connect_queue 1..4, all three ports_exhausted policies as a configuration dimension. Non-trivial iff >=2 client requests were outstanding at once on the wire or a connect/accept was cancelled. Distinct by hash(outcomes, listener actions, interleaving signature).".into(),
+        rule: "one case = one seeded run: 2-8 tagged port-open requests (client connect_ext or ports sent over a port, wait flag, optionally cancelled at poll n) against a listener that inspects and accepts / accepts later / rejects(false|true) / drops requests, uses Listener::accept directly (optionally cancelled at poll n) or is dropped; max_ports 2..8, connect_queue 1..4, all three ports_exhausted policies as a configuration dimension. Every sixth run is a local-port-exhaustion run: all max_ports (2-4) ports of the client endpoint open, 2-4 connect() calls waiting for a local port, 0-3 of them dropped (newest first or in random order), then 1..max_ports-1 ports closed on both sides: every freed port must resume one waiting call. Non-trivial iff >=2 client requests were outstanding at once on the wire or a connect/accept was cancelled. Distinct by hash(outcomes, listener actions, interleaving signature).".into(),
         explanation: "Outcome table (accept=>Ok and tags echoed over the pair match on both sides; reject(false)/dropped request/dropped listener=>Rejected; reject(true)/no server port=>RemotePortsExhausted; LocalPortsExhausted and TooManyPendingConnectionRequests only with wait=false and only when truthful), every request resolved by quiescence, no request seen twice by the listener, W5 (unanswered OpenPort <= advertised connect_queue) and W6 on every frame, and the Connect::sent ordering probe. Cfg::ports_exhausted is read by no code path of this tree; requests are judged by the wait flag they ran with (recorded, not a violation).".into(),
         assumptions: vec!["tags travel as port ids (PortReq::with_id) and over the accepted pair".into()],
         exhaustive: false,
